@@ -16,8 +16,10 @@ use std::collections::BTreeMap;
 use vcheck::*;
 
 mod c01;
+mod c02;
 mod c03;
 mod c04;
+mod c05;
 mod c35;
 
 fn main() {
@@ -26,8 +28,10 @@ fn main() {
     start_watchdog(args.tier.pick(1500, 7200));
     match args.prop.as_str() {
         "C01" => c01::run(&args),
+        "C02" => c02::run(&args),
         "C03" => c03::run(&args),
         "C04" => c04::run(&args),
+        "C05" => c05::run(&args),
         "C35" => c35::run(&args),
         "PROBE" => probe(&args),
         p => {
@@ -43,8 +47,11 @@ fn probe(args: &Args) {
     let case = load_replay(args.replay.as_ref().expect("--replay"));
     let g: RGraph = serde_json::from_value(case["graph"].clone()).expect("graph");
     let qs = std::env::var("VERIF_PROBE_QUERIES").unwrap_or_default();
+    let same_store = std::env::var("VERIF_PROBE_SAME_STORE").is_ok();
+    let mut shared = build_store(&g);
     for text in qs.split(";;").filter(|s| !s.trim().is_empty()) {
-        let mut built = build_store(&g);
+        let mut fresh_store = build_store(&g);
+        let built = if same_store { &mut shared } else { &mut fresh_store };
         let eng = samyama::query::QueryEngine::new();
         let out = catch(|| {
             let r = if text.to_uppercase().contains("CREATE") || text.to_uppercase().contains("SET ") || text.to_uppercase().contains("DELETE") || text.to_uppercase().contains("MERGE") || text.to_uppercase().contains("REMOVE") {
